@@ -245,3 +245,122 @@ def page_url_implies_page(ctx):
     else:
         ctx.inconclusive.append("vacuity: nothing observed")
     ctx.sample({"paths": E.paths})
+
+
+# ---------------------------------------------------------------------------------------
+# O3: links carried by graph nodes (the SVG <a xlink:href>) resolve exactly like the entity's own URL
+# ---------------------------------------------------------------------------------------
+from urllib.parse import unquote as _unquote  # noqa: E402
+
+BOUND = [("procedure :: area => area_impl", "area"), ("procedure :: Area => area_impl", "area"), ("PROCEDURE :: AREA => AREA_IMPL", "area"),
+         ("procedure :: area_2 => area_impl", "area_2")]
+INNER = [("accumulate", "call accumulate()"), ("Accumulate", "call accumulate()"), ("acc_2", "call acc_2()")]
+CALLS9 = [("x = s%area()", ), ("x = S%AREA()", ), ("x = s%area_2()", )]
+G9SET = dict(proc_internals=True, graph=True)  # default display: the private implementation is hidden, so the binding itself is the node
+
+
+def _g9_files(bound, inner):
+    nm = bound[1] if not isinstance(bound, CV) else choice.apply(lambda b: b[1], bound)
+    call = choice.apply(lambda n: f"x = s%{n}()", nm) if isinstance(nm, CV) else f"x = s%{nm}()"
+    return {"a.f90": ["module shapes", "type shape_t", "real :: r", "contains", bound[0], "end type shape_t",
+                      "interface operator(+)", "module procedure addp", "end interface", "private :: area_impl", "contains",
+                      "function area_impl(self)", "class(shape_t) :: self", "real :: area_impl", "end function area_impl",
+                      "function addp(a, b)", "type(shape_t), intent(in) :: a, b", "type(shape_t) :: addp", "end function addp",
+                      "subroutine total_area(s)", "type(shape_t) :: s", "real :: x", call, inner[1], "contains",
+                      choice.apply(lambda i: f"subroutine {i}()", inner[0]) if isinstance(inner[0], CV) else f"subroutine {inner[0]}()",
+                      "end subroutine", "end subroutine total_area", "end module shapes"],
+            "b.f90": ["program main", "use shapes", "type(shape_t) :: s", "call total_area(s)", "end program main"]}
+
+
+def _g9_observe(p):
+    """(graph node URL, entity URL) for every node of a project entity; pages and ids that exist"""
+    import ford.graphs as gr
+    gd = gr.GraphData("../", False, False)
+    for lst in (p.types, p.procedures, p.submodprocedures, p.modules, p.submodules, p.programs, p.files, p.blockdata):
+        for e in lst:
+            gd.register(e)
+    nodes = []
+    for coll in (gd.modules, gd.submodules, gd.programs, gd.procedures, gd.types, gd.sourcefiles, gd.blockdata,
+                 getattr(gd, "internal_procedures", {}), getattr(gd, "bound_procedures", {})):
+        for obj, n in (coll.items() if hasattr(coll, "items") else []):
+            if getattr(n, "fromstr", True):
+                continue
+            nodes.append((type(obj).__name__, obj.name, n.attribs.get("URL"), obj.get_url(), getattr(obj, "visible", True)))
+    return nodes
+
+
+def link_resolves_like(url, own):
+    """does `../<url>` name the same page and the same element id as the entity's own URL `own`?  The file part is
+    percent-decoded by the server / file system, the fragment matches an id literally or after percent-decoding (HTML 7.4.6.3)"""
+    if url is None or own is None:
+        return url is None or own is None
+    if not url.startswith("../"):
+        return False
+    url = url[3:]
+    path, _, frag = url.partition("#")
+    opath, _, ofrag = own.partition("#")
+    if _unquote(path) != _unquote(opath):
+        return False
+    return frag == ofrag or _unquote(frag) == ofrag
+
+
+def replay_g9(w):
+    import ford.sourceform as sf
+    old = sf.namelist
+    sf.namelist = sf.NameSelector()
+    try:
+        p = parserh.project_concrete(_g9_files(tuple(w["bound"]), tuple(w["inner"])), **G9SET)
+        nodes = _g9_observe(p)
+    finally:
+        sf.namelist = old
+    bad = [(c, str(n), u, o) for c, n, u, o, vis in nodes if vis and not link_resolves_like(u, o)]
+    return bool(bad), {"bound": w["bound"], "inner": w["inner"], "graph links that do not resolve (class, name, node URL, entity URL)": bad[:6]}
+
+
+from fv import sym, choice, parserh  # noqa: E402
+from fv.choice import CV  # noqa: E402
+
+
+@obligation("C09", "O3.graph-node-links", engine="SX(CV)", timeout=900)
+def graph_node_links(ctx):
+    """every graph node of a project entity (modules, types, procedures, programs, files, internal and type-bound procedures whose
+    URL is page#anchor) links to the page and element id the entity's own URL names, for symbolic binding / procedure names"""
+    import ford.graphs as gr
+    import ford.sourceform as sf
+
+    ctx.encode_fn(gr.BaseNode.__init__)
+    ctx.encode_fn(gr.GraphData.register)
+    ctx.encode_fn(gr.GraphData.get_node)
+    ctx.encode_fn(sf.FortranBase.get_url)
+    ctx.bounds.update({"binding spellings": len(BOUND), "internal procedure names": len(INNER)})
+    ctx.stubs.append("no graph is laid out (graphviz is not run): only the node attributes are inspected")
+
+    def h(E):
+        b = CV.choice(E, "bound", BOUND)
+        i = CV.choice(E, "inner", INNER)
+        E.e.snapshot = lambda m: {"bound": list(choice.value_in_model(m, b)), "inner": list(choice.value_in_model(m, i))}
+        nodes = parserh.project(_g9_files(b, i), post=_g9_observe, post_modules=(gr,), **G9SET)
+        E.reachable("nodes")
+        kinds = set()
+        for c, n, u, o, vis in nodes:
+            if not vis:
+                continue
+            kinds.add(c)
+            E.require(choice.apply(link_resolves_like, u, o), f"graph node of a {c} links somewhere else than the entity's own URL")
+        if "FortranBoundProcedure" in kinds and any(k in kinds for k in ("FortranSubroutine", "FortranFunction")):
+            E.reachable("bound and internal procedure nodes")
+
+    E = sym.Engine(ctx, max_paths=5000, incremental=True)
+    found = E.explore(h)
+    seen = set()
+    for (label, m, pc), snap in zip(found, E.snapshots):
+        if label in seen or not snap:
+            continue
+        seen.add(label)
+        ctx.report(label, snap, replay_g9)
+    for lab in ("nodes", "bound and internal procedure nodes"):
+        if E.reached.get(lab):
+            ctx.twins += 1
+        else:
+            ctx.inconclusive.append(f"vacuity: '{lab}' never reached")
+    ctx.sample({"paths": E.paths})
